@@ -600,8 +600,17 @@ def generate(target, repo, coqdir):
         mod = __import__('gen_' + target)
         GENERATORS[target] = (mod.FILENAME, mod.generate)
     fname, fn = GENERATORS[target]
-    text = fn(repo)
     path = os.path.join(coqdir, 'Gen', fname)
+    try:
+        text = fn(repo)
+    except Exception:
+        # fail closed: never leave a stale definition file from an earlier (possibly different) tree in place
+        stub = '(* translation of target %s FAILED on this tree: see the broken translation obligation *)\nDefinition translation_failed_%s : False := I.\n' % (target, target)
+        os.makedirs(os.path.dirname(path), exist_ok=True)
+        if not os.path.exists(path) or open(path).read() != stub:
+            with open(path, 'w') as f:
+                f.write(stub)
+        raise
     os.makedirs(os.path.dirname(path), exist_ok=True)
     old = open(path).read() if os.path.exists(path) else None
     if old != text:
